@@ -411,6 +411,19 @@ def str_method(ip, s, name, args, kw):
             st.assume(f)
         return sval.str_encode(s)
     if name == 'format':
+        if s.text is not None and not kw and s.text.count('{}') == len(args) and '{' not in s.text.replace('{}', '') and '}' not in s.text.replace('{}', ''):
+            vals = [ip.unopt(x, 'format') if isinstance(x, sval.SOpt) else x for x in args]
+            if all(isinstance(x, SStr) or (isnum(x) and not isreal(x) and not isinstance(x, bool)) for x in vals):
+                used(ip, "'..{}..'.format(str / int arguments): the literal pieces and the arguments' text, in order (str(int) = decimal digits, uninterpreted)")
+                parts = []
+                lits = s.text.split('{}')
+                for j, lit in enumerate(lits):
+                    if lit:
+                        parts.append(('lit', lit))
+                    if j < len(vals):
+                        x = vals[j]
+                        parts.append(('str', x) if isinstance(x, SStr) else ('int', x if isinstance(x, int) else to_int(x)))
+                return SStr(fresh('strfmt', Str), parts=parts)
         used(ip, 'str.format: returns some str (content not modelled)')
         return SStr(fresh('fmt', Str))
     if name == 'lower':
@@ -635,6 +648,7 @@ def call_external(ip, f, args, kw):
         r = SBytes.sym(name)
         st.hyps.append(r.wf())
         r.meta = dict(b64_of=b)
+        st.ghost.setdefault('b64_calls', []).append((b, r))
         return r
     if f is _random.random:
         used(ip, 'random.random() in [0, 1)')
